@@ -121,11 +121,15 @@ def _has_return(st: ast.AST) -> bool:
     return any(isinstance(n, ast.Return) for n in walk_no_nested(st)) or isinstance(st, ast.Return)
 
 
+class _NeedBlock(Exception):
+    pass
+
+
 def eliminate_returns(stmts: list[ast.stmt], result: Callable[[ast.AST | None, ast.stmt], list[ast.stmt]]) -> tuple[list[ast.stmt], bool]:
-    """rewrite a helper body so that it has no `return`: `return v` becomes result(v) and the statements that followed an `if`
-    containing a return are moved into the branches that fall through (early returns become an if/else tree). Returns the new
-    statements and whether every path through them ends in a (former) return or a raise. Raises _Unsupported for a return
-    inside a loop / match, or inside a try / with whose other paths fall through."""
+    """rewrite a helper body so that it has no `return`, as an if/else tree: `return v` becomes result(v); the statements after
+    an `if` one of whose branches always returns move into the other branch (nothing is duplicated, nothing leaves or enters a
+    try). Returns the statements and whether every path through them ends in a former return or a raise. Raises _NeedBlock
+    when the tree form does not exist (a return nested in a statement that can also fall through into more code)."""
     out: list[ast.stmt] = []
     for i, st in enumerate(stmts):
         if isinstance(st, ast.Return):
@@ -139,13 +143,19 @@ def eliminate_returns(stmts: list[ast.stmt], result: Callable[[ast.AST | None, a
             continue
         rest = stmts[i + 1:]
         if isinstance(st, ast.If):
-            b, bx = eliminate_returns(list(st.body) + clone(rest), result)
-            o, ox = eliminate_returns(list(st.orelse) + clone(rest), result)
-            new = ast.If(test=st.test, body=b or [ast.copy_location(ast.Pass(), st)], orelse=o)
-            ast.copy_location(new, st)
-            out.append(new)
-            return out, bx and ox
-        if isinstance(st, ast.Try) and not st.orelse and not st.finalbody:
+            b, bx = eliminate_returns(list(st.body), result)
+            o, ox = eliminate_returns(list(st.orelse), result)
+            if (bx and ox) or not rest:
+                new = ast.If(test=st.test, body=b or [ast.copy_location(ast.Pass(), st)], orelse=o)
+                out.append(ast.copy_location(new, st))
+                return out, bx and ox
+            if bx or ox:
+                r, rx = eliminate_returns(rest, result)
+                new = ast.If(test=st.test, body=(b if bx else b + r) or [ast.copy_location(ast.Pass(), st)], orelse=(o + r if bx else o))
+                out.append(ast.copy_location(new, st))
+                return out, rx
+            raise _NeedBlock()
+        if isinstance(st, ast.Try) and not st.finalbody and not st.orelse:
             b, bx = eliminate_returns(list(st.body), result)
             hs = []
             allx = bx
@@ -153,24 +163,91 @@ def eliminate_returns(stmts: list[ast.stmt], result: Callable[[ast.AST | None, a
                 hb, hx = eliminate_returns(list(h.body), result)
                 allx = allx and hx
                 nh = ast.ExceptHandler(type=h.type, name=h.name, body=hb or [ast.copy_location(ast.Pass(), h)])
-                ast.copy_location(nh, h)
-                hs.append(nh)
-            if not allx:
-                raise _Unsupported("return inside try whose other paths fall through")
-            new = ast.Try(body=b, handlers=hs, orelse=[], finalbody=[])
-            ast.copy_location(new, st)
-            out.append(new)
-            return out, True
+                hs.append(ast.copy_location(nh, h))
+            if allx or not rest:
+                out.append(ast.copy_location(ast.Try(body=b, handlers=hs, orelse=[], finalbody=[]), st))
+                return out, allx
+            raise _NeedBlock()
         if isinstance(st, ast.With):
             b, bx = eliminate_returns(list(st.body), result)
-            if not bx:
-                raise _Unsupported("return inside with whose body can fall through")
-            new = ast.With(items=st.items, body=b)
-            ast.copy_location(new, st)
-            out.append(new)
-            return out, True
-        raise _Unsupported(f"return inside {type(st).__name__}")
+            if bx or not rest:
+                out.append(ast.copy_location(ast.With(items=st.items, body=b), st))
+                return out, bx
+            raise _NeedBlock()
+        raise _NeedBlock()
     return out, False
+
+
+def block_form(stmts: list[ast.stmt], result: Callable[[ast.AST | None, ast.stmt], list[ast.stmt]]) -> ast.stmt:
+    """the general form: the helper body inside a block that a `break` leaves,
+
+        while True:                      # marked `_inline_block`: runs exactly once
+            <body, each `return v` replaced by result(v); break>
+            result(None)                 # when the body can fall off its end
+            break
+
+    which keeps every statement once, in its own exception scope, and lets the CFG builder route each former return to the
+    code after the call (a `while True` has no false edge). Not supported (raises _Unsupported): a return inside a loop of
+    the helper itself (the break would leave that loop instead), inside match, or in a try/finally."""
+    def conv(body: list[ast.stmt]) -> list[ast.stmt]:
+        out: list[ast.stmt] = []
+        for st in body:
+            if isinstance(st, ast.Return):
+                out += result(st.value, st)
+                out.append(ast.copy_location(ast.Break(), st))
+                break
+            if not _has_return(st):
+                out.append(st)
+                continue
+            if isinstance(st, ast.If):
+                out.append(ast.copy_location(ast.If(test=st.test, body=conv(list(st.body)) or [ast.copy_location(ast.Pass(), st)], orelse=conv(list(st.orelse))), st))
+            elif isinstance(st, ast.Try) and not st.finalbody:
+                hs = [ast.copy_location(ast.ExceptHandler(type=h.type, name=h.name, body=conv(list(h.body)) or [ast.copy_location(ast.Pass(), h)]), h) for h in st.handlers]
+                out.append(ast.copy_location(ast.Try(body=conv(list(st.body)), handlers=hs, orelse=conv(list(st.orelse)), finalbody=[]), st))
+            elif isinstance(st, ast.With):
+                out.append(ast.copy_location(ast.With(items=st.items, body=conv(list(st.body))), st))
+            else:
+                raise _Unsupported(f"return inside {type(st).__name__}")
+        return out
+
+    body = conv(stmts)
+    if not _always_leaves_block(body):
+        at = stmts[-1] if stmts else ast.Pass()
+        body += result(None, at) + [ast.copy_location(ast.Break(), at)]
+    blk = ast.While(test=ast.Constant(value=True), body=body, orelse=[])
+    blk._inline_block = True  # type: ignore[attr-defined]
+    return blk
+
+
+def _always_leaves_block(stmts: list[ast.stmt]) -> bool:
+    if not stmts:
+        return False
+    last = stmts[-1]
+    if isinstance(last, (ast.Break, ast.Raise, ast.Return, ast.Continue)):
+        return True
+    if isinstance(last, ast.If):
+        return _always_leaves_block(last.body) and _always_leaves_block(last.orelse)
+    if isinstance(last, ast.Try) and not last.finalbody:
+        return _always_leaves_block(last.body + last.orelse) and all(_always_leaves_block(h.body) for h in last.handlers)
+    if isinstance(last, ast.With):
+        return _always_leaves_block(last.body)
+    return False
+
+
+def _always_leaves(stmts: list[ast.stmt]) -> bool:
+    if not stmts:
+        return False
+    last = stmts[-1]
+    if isinstance(last, (ast.Return, ast.Raise)):
+        return True
+    if isinstance(last, ast.If):
+        return _always_leaves(last.body) and _always_leaves(last.orelse)
+    if isinstance(last, ast.Try) and not last.finalbody:
+        return _always_leaves(last.body + last.orelse) and all(_always_leaves(h.body) for h in last.handlers)
+    if isinstance(last, ast.With):
+        return _always_leaves(last.body)
+    return False
+
 
 
 def _helper_of(fi: FuncInfo, call: ast.Call) -> FuncInfo | None:
@@ -328,7 +405,7 @@ def _expand(fi: FuncInfo, caller_names: set[str], st: ast.stmt, select: Callable
         elif targets:
             if isinstance(st, ast.AnnAssign):
                 res.append(ast.AnnAssign(target=clone(st.target), annotation=st.annotation, value=val, simple=st.simple))
-            elif len(targets) == 1 and isinstance(targets[0], ast.Tuple) and isinstance(val, ast.Tuple) and len(val.elts) == len(targets[0].elts) and all(isinstance(t, ast.Name) for t in targets[0].elts) and not ({t.id for t in targets[0].elts} & {x.id for x in ast.walk(val) if isinstance(x, ast.Name)}):
+            elif len(targets) == 1 and isinstance(targets[0], ast.Tuple) and isinstance(val, ast.Tuple) and len(val.elts) == len(targets[0].elts) and all(isinstance(t, ast.Name) for t in targets[0].elts) and not ({t.id for t, e in zip(targets[0].elts, val.elts) if not (isinstance(e, ast.Name) and e.id == t.id)} & {x.id for t, e in zip(targets[0].elts, val.elts) if not (isinstance(e, ast.Name) and e.id == t.id) for x in ast.walk(e) if isinstance(x, ast.Name)}):
                 # a, b = x, y  with targets that do not occur on the right: one plain assignment per element
                 for t, e in zip(targets[0].elts, val.elts):
                     if isinstance(e, ast.Name) and e.id == t.id:
@@ -338,17 +415,34 @@ def _expand(fi: FuncInfo, caller_names: set[str], st: ast.stmt, select: Callable
                 res.append(ast.Assign(targets=clone(targets), value=val))
         elif v is not None and not isinstance(v, (ast.Constant, ast.Name)):
             res.append(ast.Expr(value=val))
+        if not res:
+            res.append(ast.Pass())
         for r in res:
             ast.copy_location(r, at)
+            ast.fix_missing_locations(r)
+            r._was_return = True  # type: ignore[attr-defined]
         return res
 
     renamed_body = [R().visit(b) for b in body]
-    try:
-        new_body, exits = eliminate_returns(renamed_body, result)
-    except _Unsupported:
-        return None
-    if not exits:
-        new_body += result(None, st) if (targets or isinstance(st, ast.Return)) else []
+    if isinstance(st, ast.Return):
+        # `return h(...)`: the helper's returns simply become the caller's
+        new_body = renamed_body
+        if not _always_leaves(new_body):
+            new_body = new_body + [ast.copy_location(ast.Return(value=None), st)]
+    else:
+        try:
+            new_body, exits = eliminate_returns(renamed_body, result)
+            if not exits and targets:
+                new_body += result(None, st)
+        except _NeedBlock:
+            try:
+                blk = block_form(renamed_body, result)
+            except _Unsupported:
+                return None
+            ast.copy_location(blk, st)
+            new_body = [blk]
+        except _Unsupported:
+            return None
     out: list[ast.stmt] = prologue + new_body
     for o in out:
         ast.fix_missing_locations(o)
